@@ -140,6 +140,11 @@ theorem C02_string_float_format_refuses_all (fname : Str → Str) (vname : J →
     judge (.strFloat b) (typeOf fname vname (.strFloat b)) (.str t) = false := by
   simp [judge, judgeRun, valid, rt, typeOf]
 
+/-- finding F02-10: `{type: string, format: byte}` (base64 text) is typed `Vec<u8>` without an adapter: EVERY string is refused -/
+theorem C02_string_byte_format_refuses_all (fname : Str → Str) (vname : J → Str) (t : Str) :
+    judge .strBytes (typeOf fname vname .strBytes) (.str t) = false := by
+  simp [judge, judgeRun, valid, rt, typeOf]
+
 /-- … while a JSON number, which is NOT valid against `type: string`, is read -/
 theorem C02_cex_string_int64_reads_number :
     (rt (typeOf id (fun _ => []) (.strNum .i64)) (.num 5 0)).isSome = true ∧ valid true (.strNum .i64) (.num 5 0) = false := by
